@@ -234,6 +234,20 @@ pub fn run(ctx: &mut Ctx) {
             ctx.emit(format!("findapi find {} {} {} => {}", crate::proto::value_tokens(&root), path.len(), ptoks.join(" "), obs).replace("  ", " "));
         }
     }
+    // --- the two ways of asking an array view about an index agree: contains_key(i) <=> get(i) is some ---
+    {
+        use liquid_core::model::ArrayView;
+        for n in 0..=5usize {
+            let v: Vec<Value> = (0..n).map(|k| i(k as i64)).collect();
+            let view: &dyn ArrayView = &v;
+            for idx in -(n as i64) - 3..=(n as i64) + 2 {
+                let (c, g) = (view.contains_key(idx), view.get(idx).is_some());
+                let want = (0 <= idx && idx < n as i64) || (idx < 0 && -idx <= n as i64);
+                let ok = c == g && g == want;
+                ctx.emit(format!("law array-index contains-key-iff-get {} {}", if ok { "ok" } else { "fail" }, xs(&format!("len={} index={} contains_key={} get.is_some={} in-range={}", n, idx, c, g, want))));
+            }
+        }
+    }
     // --- literals ---
     let bounds: [i128; 14] = [0, 1, -1, 9, 10, 99, 100, i64::MAX as i128, i64::MAX as i128 - 1, i64::MIN as i128, i64::MIN as i128 + 1,
         i64::MAX as i128 + 1, i64::MIN as i128 - 1, 12345678901234567890];
